@@ -178,3 +178,18 @@ Proof.
   - cbn [bind]. unfold chunks at 2. reflexivity.
   - rewrite fragment_ok by exact Hm. reflexivity.
 Qed.
+
+(* all command fragments, then all data fragments; each stream well formed *)
+Lemma fragmentation_spec (cmd data : bytes) (pc m : N) : legal_max m ->
+  exists cs ds,
+    dimse_encode cmd data pc m = Ok (cs ++ ds)
+    /\ stream_ok pc (eff_max m) 1 3 cmd cs
+    /\ stream_ok pc (eff_max m) 0 2 data ds.
+Proof.
+  intros Hm.
+  exists (mk_frags pc (map (tag 1 3) (chunks (eff_max m - 6) cmd))),
+         (mk_frags pc (map (tag 0 2) (chunks (eff_max m - 6) data))).
+  split; [exact (dimse_encode_ok cmd data pc m Hm)|].
+  apply eff_max_legal in Hm.
+  split; apply stream_of_chunks; try exact Hm; discriminate.
+Qed.
